@@ -127,6 +127,21 @@ def gen_cases(rng, tier):
             vecs.append(v2)
         vecs = vecs[:16]
         extreme = "hash_colliding_parameters"
+      if k == 5 and name not in ("zero", "zbl"):
+        # near-duplicates: vectors that agree to six or seven significant figures and differ after that (1234567 /
+        # 1234568; 27.12346 / 27.12349): anything remembered under a rounded or formatted key would mix them up
+        base = [float("%.9g" % (v * 1.2345678)) if v else v for v in (distinct(rng, name) if name != "polynomial" else [round(rng.uniform(-2, 2), 4) for _ in range(3)])]
+        if name == "buck4":
+          base = list(distinct(rng, name))
+        vecs = [base]
+        for pos in range(len(base)):
+          if base[pos] == 0:
+            continue
+          v2 = list(base)
+          v2[pos] = float("%.12g" % (base[pos] * (1 + 4e-7)))
+          vecs.append(v2)
+        vecs = (vecs * 2)[:max(NVEC, len(vecs))]
+        extreme = "near_duplicate_parameters"
       rs = sorted(set([round(rng.uniform(0.05, 30.0), rng.choice([2, 3, 5])) for _ in range(10)] + [30.0, rng.choice([0.01, 0.5, 1.0])]))
       if name == "zbl":
         rs = [r for r in rs if r <= 30.0]
